@@ -7,6 +7,7 @@
   Observed (CPython's parser on generated cases): that the whole stub text parses; the text-level lexing of a parameter list.
 -/
 import MTVerif.Model.Sig
+import MTVerif.Lemmas.ModuleBuild
 namespace MT.C12
 open MT.Sig
 
@@ -237,5 +238,37 @@ example : validKinds [⟨"a", .posOnly, false, none⟩, ⟨"b", .posOnly, true, 
     ⟨"args", .varPos, false, none⟩, ⟨"k", .kwOnly, false, none⟩, ⟨"kw", .varKw, false, none⟩] = true := by decide
 example : renderToks [⟨"a", .posOnly, false, none⟩, ⟨"k", .kwOnly, false, none⟩] =
     [.item 0 "a" none false, .slash, .star, .item 0 "k" none false] := by decide
+
+/-! ### where the function stubs of a module go (`build_module_stubs`) -/
+
+open MT.Build in
+/-- C12, "each traced function appears exactly once, inside its class when it is a method, and nothing untraced appears": for
+    every list of entries of one module (any class paths of any depth, any order, repetitions allowed), the tree of class stubs
+    `build_module_stubs` builds lists every dict item once, and a function `name` sits at class path `path` iff an entry with
+    that class path and name was given. -/
+theorem each_function_once (es : List Entry) :
+    (build es).items.Nodup ∧ ∀ q : Entry, (q.path, q.name) ∈ (build es).items ↔ q ∈ es := by
+  have hw : (build es).wfT := wfT_buildFrom es _ 0 wfT_empty
+  refine ⟨items_nodup _ hw, fun q => ?_⟩
+  rw [mem_items _ _ _ hw]
+  unfold build
+  rw [lookup_buildFrom es Tree.empty 0 q, lookup_empty]
+  simp
+
+open MT.Build in
+/-- … and the stub found there comes from the last entry with that qualified name (a later definition replaces an earlier one) -/
+theorem later_entry_wins (es : List Entry) (e : Entry) :
+    (build (es ++ [e])).lookup e.path e.name = some es.length := by
+  have : ∀ (es : List Entry) (t : Tree) (i : Nat), (buildFrom t i (es ++ [e])).lookup e.path e.name = some (i + es.length) := by
+    intro es
+    induction es with
+    | nil => intro t i; simp [buildFrom, lookup_insert_self]
+    | cons x xs ih => intro t i; simp only [List.cons_append, buildFrom, ih, List.length_cons, Option.some.injEq]; omega
+  simpa [build] using this es Tree.empty 0
+
+/-! non-vacuity: `f`, `K.m`, `K.Inner.n`, `K.m` again -/
+open MT.Build in
+example : (build [⟨[], "f"⟩, ⟨["K"], "m"⟩, ⟨["K", "Inner"], "n"⟩, ⟨["K"], "m"⟩]).items =
+    [([], "f"), (["K"], "m"), (["K", "Inner"], "n")] := by decide
 
 end MT.C12
